@@ -1,6 +1,7 @@
 import CM.Ops.Core
 import CM.Ops.Recognize
 import CM.Ops.Check
+import CM.Ops.Walk
 namespace CM.Ops
 
 def echoOp : Op
@@ -13,6 +14,6 @@ def treeOp : Op
     | none => bad
   | _ => bad
 
-def allOps : List (String × Op) := [("echo", echoOp), ("tree", treeOp)] ++ recognizeOps ++ checkOps
+def allOps : List (String × Op) := [("echo", echoOp), ("tree", treeOp)] ++ recognizeOps ++ checkOps ++ walkOps
 
 end CM.Ops
